@@ -29,7 +29,7 @@ type cfgField struct {
 }
 
 var cfgKinds = map[string][]cfgField{
-	"jobs": {{"defaultTTLSecondsAfterFinished", "int"}, {"defaultPendingTimeoutSeconds", "int"}, {"forceDeleteTaskTimeoutSeconds", "int"}},
+	"jobs":       {{"defaultTTLSecondsAfterFinished", "int"}, {"defaultPendingTimeoutSeconds", "int"}, {"forceDeleteTaskTimeoutSeconds", "int"}},
 	"jobConfigs": {{"maxEnqueuedJobs", "int"}},
 	"cron": {{"cronFormat", "string"}, {"cronHashNames", "bool"}, {"cronHashSecondsByDefault", "bool"}, {"cronHashFields", "bool"},
 		{"defaultTimezone", "string"}, {"maxMissedSchedules", "int"}, {"maxDowntimeThresholdSeconds", "int"}},
@@ -151,7 +151,7 @@ func (e CfgEntry) text() string {
 func (e CfgEntry) parses() bool { return e.Fields != nil && !e.BadB64 }
 
 type cfgModel struct {
-	layers  map[string]map[string]map[string]interface{} // source -> kind -> field -> value (last accepted content)
+	layers   map[string]map[string]map[string]interface{} // source -> kind -> field -> value (last accepted content)
 	lastGood map[string]map[string]interface{}            // kind -> last successfully read typed view
 }
 
